@@ -1398,3 +1398,125 @@ Lemma never_learnt hist k tok s :
   Forall op_i64 hist -> run hist = Some s ->
   forallb (fun o => negb (covering_learn k tok o)) hist = true -> lookup s k tok = None.
 Proof. intros Hok Hrun H. rewrite (lookup_refines _ s k tok Hok Hrun). now apply spec_never_learnt. Qed.
+
+(* ------------------------------------------------------------------------------------ *)
+(* M. the caller's argument derivation: tablets never keep stale Node objects            *)
+(* ------------------------------------------------------------------------------------ *)
+
+Lemma existsb_false_forall {A} (p : A -> bool) l : existsb p l = false <-> forall x, In x l -> p x = false.
+Proof.
+  induction l as [|a r IH]; cbn; [split; [intros _ x []|reflexivity]|].
+  rewrite orb_false_iff, IH. split.
+  - intros [Ha Hr] x [<-|Hx]; [assumption|now apply Hr].
+  - intros H. split; [apply H; now left|intros x Hx; apply H; now right].
+Qed.
+
+Definition nodes_in (known : list node) (s : info) : Prop :=
+  forall k t r, In t (tt_list (or_empty (find_table s k))) -> In r (r_all (t_reps t)) -> In (fst r) known.
+
+Lemma resolve_nodes known raw r : In r (fst (resolve known raw)) -> In (fst r) known.
+Proof.
+  induction raw as [|[h s] raw IH]; cbn [resolve]; [intros []|].
+  destruct (resolve known raw) as [a f]. cbn [fst] in *. unfold find_node.
+  destruct (find (fun n => (host n =? h)%N) known) as [n|] eqn:E; cbn [fst]; [|exact IH].
+  intros [<-|Hr]; [|now apply IH]. cbn. now apply find_some in E.
+Qed.
+
+Lemma from_raw_tablet_nodes f l raw known r :
+  In r (r_all (t_reps (from_raw_tablet f l raw known))) -> In (fst r) known.
+Proof.
+  unfold from_raw_tablet. pose proof (resolve_nodes known raw r) as H.
+  destruct (resolve known raw) as [a fl]. cbn in *. exact H.
+Qed.
+
+Lemma maint_tablet_nodes old new x y r :
+  (forall r0, In r0 (r_all (t_reps x)) -> In (fst r0) old) ->
+  maint_tablet (derive_removed old new) new (derive_recreated old new) x = Some y ->
+  In r (r_all (t_reps y)) -> In (fst r) new.
+Proof.
+  intros Hold. unfold maint_tablet. destruct (re_resolve new x) as [t1|] eqn:E1; [|discriminate].
+  destruct (no_removed_replica (derive_removed old new) t1) eqn:Erm; [|discriminate]. intros [= <-].
+  destruct (update_stale_props (derive_recreated old new) t1) as (_ & _ & _ & -> & _).
+  intros Hr. apply in_map_iff in Hr as (r0 & <- & Hr0).
+  assert (Hrec : forall n', In n' (derive_recreated old new) -> In n' new).
+  { intros n' H. unfold derive_recreated in H. now apply filter_In in H. }
+  unfold spec_swap. destruct (find (fun n => (host n =? host (fst r0))%N) (derive_recreated old new)) as [n'|] eqn:F.
+  { cbn. apply Hrec. now apply find_some in F. }
+  (* not swapped: the replica is either freshly resolved against new, or an old object that is
+     still the current one *)
+  unfold re_resolve in E1. destruct (t_failed x) as [raw|] eqn:Ef.
+  - pose proof (resolve_nodes new raw r0) as Hres. destruct (resolve new raw) as [a fl].
+    destruct (is_nil fl); [|discriminate]. injection E1 as <-. cbn in Hr0. now apply Hres.
+  - injection E1 as <-. specialize (Hold r0 Hr0).
+    unfold no_removed_replica in Erm. rewrite forallb_forall in Erm. specialize (Erm r0 Hr0).
+    apply negb_true_iff in Erm.
+    (* some node of new has this host *)
+    destruct (existsb (fun n => (host n =? host (fst r0))%N) new) eqn:Ex.
+    + apply existsb_exists in Ex as (n2 & Hn2 & Eh). apply N.eqb_eq in Eh.
+      (* n2 is not recreated, so every old node with its host IS n2 *)
+      assert (Hnot : existsb (fun o => (host o =? host n2)%N && negb (node_eqb o n2)) old = false).
+      { destruct (existsb _ old) eqn:Eo; [|reflexivity]. exfalso.
+        assert (Hin : In n2 (derive_recreated old new)) by (apply filter_In; now split).
+        pose proof (find_none _ _ F n2 Hin) as Hc. cbn in Hc. rewrite Eh, N.eqb_refl in Hc. discriminate. }
+      pose proof (proj1 (existsb_false_forall _ _) Hnot) as Hall.
+      specialize (Hall (fst r0) Hold). rewrite Eh, N.eqb_refl in Hall. cbn in Hall.
+      apply negb_false_iff in Hall. apply node_eqb_eq in Hall. now rewrite Hall.
+    + exfalso. unfold derive_removed, memN in Erm.
+      assert (Hin : In (host (fst r0)) (map host (filter (fun o => negb (existsb (fun n => (host n =? host o)%N) new)) old))).
+      { apply in_map. apply filter_In. split; [assumption|]. now rewrite Ex. }
+      pose proof (proj1 (existsb_false_forall _ _) Erm _ Hin) as Hc. now rewrite N.eqb_refl in Hc.
+Qed.
+
+Lemma step_nodes_learn s k a b raw known s' :
+  state_inv s -> i64_ok a -> i64_ok b -> nodes_in known s ->
+  step s (Learn k a b raw known) = Some s' -> nodes_in known s'.
+Proof.
+  intros Hinv Ha Hb Hn Hstep. cbn [step] in Hstep.
+  destruct (payload_check a b raw) as [[[f l] r]|e] eqn:E; [|now injection Hstep as <-].
+  destruct (learn_tablet a b raw known f l r Ha Hb E) as (Hwf & Hdc & _).
+  destruct (info_add_inv s k _ Hinv Hwf Hdc) as (s1 & E1 & _ & Hother & tt' & Ett' & _ & Hin').
+  rewrite E1 in Hstep. injection Hstep as <-.
+  intros k' t rr Ht Hr. destruct (tkey_eqb k k') eqn:Ek.
+  - apply tkey_eqb_eq in Ek. subst k'. rewrite Ett' in Ht. cbn [or_empty] in Ht.
+    apply Hin' in Ht as [->|[Ht _]]; [now apply from_raw_tablet_nodes in Hr|]. exact (Hn k t rr Ht Hr).
+  - rewrite Hother in Ht; [exact (Hn k' t rr Ht Hr)|]. intros ->. now rewrite tkey_eqb_refl in Ek.
+Qed.
+
+Lemma step_nodes_refresh s kss old new s' :
+  state_inv s -> nodes_in old s -> step s (refresh_op kss old new) = Some s' -> nodes_in new s'.
+Proof.
+  intros Hinv Hn Hstep. cbn [step refresh_op] in Hstep. injection Hstep as <-.
+  intros k t r Ht Hr. rewrite info_maintenance_lists in Ht by assumption.
+  destruct (keep_table kss k); [|destruct Ht].
+  apply filter_map_In in Ht as (x & Hx & Ex).
+  eapply maint_tablet_nodes; [|exact Ex|exact Hr]. intros r0 Hr0. exact (Hn k x r0 Hx Hr0).
+Qed.
+
+Lemma cluster_run_nodes h : forall known0 s0 s,
+  state_inv s0 -> nodes_in known0 s0 -> Forall op_i64 (cluster_ops known0 h) ->
+  run_from (Some s0) (cluster_ops known0 h) = Some s -> nodes_in (cluster_known known0 h) s.
+Proof.
+  induction h as [|c h IH]; intros known0 s0 s Hinv Hn Hok Hrun.
+  - cbn in *. now injection Hrun as <-.
+  - destruct c as [k a b raw|kss new]; cbn [cluster_ops cluster_known] in *;
+      inversion Hok as [|? ? Ho Hh]; subst;
+      match type of Ho with op_i64 ?o => destruct (step_inv s0 o Hinv Ho) as (s1 & E1 & Hinv1) end;
+      cbn [run_from fold_left] in Hrun; rewrite E1 in Hrun.
+    + destruct Ho as [Ha Hb]. eapply IH; [exact Hinv1| |exact Hh|exact Hrun].
+      exact (step_nodes_learn s0 k a b raw known0 s1 Hinv Ha Hb Hn E1).
+    + eapply IH; [exact Hinv1| |exact Hh|exact Hrun]. exact (step_nodes_refresh s0 kss known0 new s1 Hinv Hn E1).
+Qed.
+
+(* every replica a table can answer with is one of the CURRENT Node objects of the cluster *)
+Lemma cluster_no_stale_nodes known0 h s k tok t r :
+  Forall op_i64 (cluster_ops known0 h) -> run (cluster_ops known0 h) = Some s ->
+  lookup_tablet s k tok = Some t -> In r (r_all (t_reps t)) -> In (fst r) (cluster_known known0 h).
+Proof.
+  intros Hok Hrun Ht Hr.
+  assert (Hn : nodes_in (cluster_known known0 h) s).
+  { eapply cluster_run_nodes; [apply state_inv_empty| |exact Hok|exact Hrun]. intros k' t' r' []. }
+  pose proof (run_state_inv _ s Hok Hrun) as Hinv.
+  rewrite lookup_or_empty in Ht. destruct (or_empty_ok s k Hinv) as (Hli & _).
+  rewrite tablet_for_token_find in Ht by assumption. apply find_some in Ht as [Hin _].
+  exact (Hn k t r Hin Hr).
+Qed.
